@@ -26,18 +26,20 @@ def demo_cmd(path, k):
     return f"cargo test --offline --features 'alloc internals serde zeroize const-default' --test demo{k}"
 
 
+BASE = os.environ.get("MUT_BASE", "/tmp/mut")
+TAG = os.environ.get("MUT_TAG", "m")
 only = sys.argv[1:] 
 results = {}
-for wt in sorted(glob.glob("/tmp/mut/C*")):
+for wt in sorted(glob.glob(BASE + "/C*")):
     pid = os.path.basename(wt)
     if only and pid not in only:
         continue
     sh(f"git checkout -q --detach {HEAD} && git checkout -- src tests", wt)
     for diff in sorted(glob.glob(f"{wt}/deliver/mut*.diff")):
         k = re.search(r"mut(\d+)\.diff", diff).group(1)
-        name = f"{pid}-m{k}"
+        name = f"{pid}-{TAG}{k}"
         demo = f"{wt}/deliver/demo{k}.rs"
-        ported = f"/tmp/mut/ported/{name}.diff"
+        ported = f"{BASE}/ported/{name}.diff"
         original = diff
         if os.path.exists(ported):
             # the sub-agent's patch was written against the pinned tree; the repaired tree moved the
@@ -94,4 +96,4 @@ for wt in sorted(glob.glob("/tmp/mut/C*")):
                     "detected_by": "TBD"}
             json.dump(meta, open(f"{d}/meta.json", "w"), indent=1)
         print(name, r["status"], flush=True)
-json.dump(results, open("/tmp/mut/confirm.json", "w"), indent=1)
+json.dump(results, open(BASE + "/confirm.json", "w"), indent=1)
